@@ -26,6 +26,8 @@ ASSUMPTIONS = [
     "(slit length), 0.1 (h/W)^2 (slit width), their sum for L+W against the documented semi-discrete mean over 2*30+1 "
     "offsets; plus 0.2 (h k)^2 with k the inverse length scale of the test function (mid-point rule); constants are 3x the worst value seen on 600 generated cases; against the true double integral an added "
     "2 max|f'| W/(61 |f|) term",
+    "slits 30-4000 times longer than wide (1 L+W case in 4): the envelope becomes bound + 0.5 (h/L) max|I|/|smeared value|; below that ceiling a point "
+    "counts only if its error is also not at least halved from h to h/4",
     "2-D: exact = f(q0) + kappa (s_par^2 f_rr + s_perp^2 f_tt)/2 with kappa = (1-5.5e^-4.5)/(1-e^-4.5); shift error <= 4% low, 1.5% med/high, 0.5% xhigh",
 ]
 KAPPA = (1.0 - 5.5 * math.exp(-4.5)) / (1.0 - math.exp(-4.5))
@@ -38,7 +40,8 @@ def make_f(spec):
         return (lambda q: a0 + a1 * np.abs(q) + a2 * np.abs(q) ** 2), (lambda q: a1 + 2 * a2 * np.abs(q))
     if kind == "lor2":
         xi = spec["c"][0]
-        return (lambda q: 1.0 / (1.0 + (xi * q) ** 2) ** 2 + 0.05), (lambda q: -4 * xi * xi * np.abs(q) / (1 + (xi * q) ** 2) ** 3)
+        bg = spec["c"][1] if len(spec["c"]) > 1 else 0.05
+        return (lambda q: 1.0 / (1.0 + (xi * q) ** 2) ** 2 + bg), (lambda q: -4 * xi * xi * np.abs(q) / (1 + (xi * q) ** 2) ** 3)
     a, b, c = spec["c"]
     return (lambda q: np.exp(-a * np.abs(q)) * np.cos(b * np.abs(q)) + c), \
         (lambda q: -np.exp(-a * np.abs(q)) * (a * np.cos(b * np.abs(q)) + b * np.sin(b * np.abs(q))))
@@ -68,6 +71,14 @@ def cases1d(draw):
     cross = geom == "pinhole" and draw(st.integers(0, 3)) == 0
     # slit width larger than q: the part of the window beyond the beam centre is folded back (I(|q+v|))
     fold = geom in ("slitW", "slitLW") and draw(st.integers(0, 3)) == 0
+    # very long narrow slits (L/W from 30 to 4000, the "infinite slit" of a Bonse-Hart instrument with a finite
+    # width): the double integral is documented for every combination of L and W
+    long_ = geom == "slitLW" and not fold and draw(st.integers(0, 3)) == 0
+    if long_:
+        # one data point: the calculation grid has to cover [0, L] at the spacing set by W, and with several
+        # points the largest L over the smallest W would decide its size (up to 1e8 points)
+        q = [q[draw(st.integers(0, len(q) - 1))]]
+        qmin = q[0]
     w1, w2 = [], []
     for v in q:
         frac = draw(st.floats(0.02, 0.3))
@@ -83,11 +94,18 @@ def cases1d(draw):
             w1.append(S.sig(v * draw(st.floats(1.05, 1.8)), 4) if fold else
                       S.sig(min(frac * v, 0.85 * (v - 0.1 * qmin)), 4))
         else:
-            w1.append(S.sig(draw(st.floats(0.3, 3.0)) * v, 4))             # L
             w2.append(S.sig(v * draw(st.floats(1.05, 1.8)), 4) if fold else
                       S.sig(min(frac * v, 0.85 * (v - 0.1 * qmin)), 4))    # W
-    return {"geom": geom, "f": draw(fspec(smooth=cross or fold)), "q": q, "w1": w1, "w2": w2, "cross": cross, "fold": fold,
-            "hdiv": draw(st.sampled_from([10, 20, 40])), "offset": S.sig(draw(st.sampled_from([0.5, 0.5, 0.13, 0.77])), 3)}
+            w1.append(S.sig(w2[-1] * 10 ** draw(st.one_of(st.floats(1.5, 3.0), st.floats(3.0, 3.6))), 4) if long_ else
+                      S.sig(draw(st.floats(0.3, 3.0)) * v, 4))             # L
+    f = draw(fspec(smooth=cross or fold))
+    if long_ and f["kind"] != "lor2" and draw(st.booleans()):
+        f = {"kind": "lor2", "c": [S.sig(draw(st.floats(5, 60)), 3)]}
+    if long_ and f["kind"] == "lor2":
+        f["c"] = [f["c"][0], 1e-4]      # low flat level: the average over a very long slit is not swamped by it
+    return {"geom": geom, "f": f, "q": q, "w1": w1, "w2": w2, "cross": cross, "fold": fold, "long": long_,
+            "hdiv": draw(st.sampled_from([10, 20] if long_ else [10, 20, 40])),
+            "offset": S.sig(draw(st.sampled_from([0.5, 0.5, 0.13, 0.77])), 3)}
 
 
 def _window(geom, q, w1, w2):
@@ -114,7 +132,10 @@ def exact1d(geom, f, q0, a, b=None, cut=0.0):
         den = integrate.quad(g, lo, hi, **kw)[0]
         return num / den
     if geom == "slitL":
-        return integrate.quad(lambda u: f(math.sqrt(q0 * q0 + u * u)), 0, a, **kw)[0] / a
+        # break points: the integrand is concentrated near u = 0 when the slit is much longer than the features
+        brk = [0.0] + [x for x in (0.01, 0.03, 0.1, 0.3, 1.0, 3.0, 10.0, 30.0, 100.0, 300.0) if x < a] + [a]
+        return sum(integrate.quad(lambda u: f(math.sqrt(q0 * q0 + u * u)), lo_, hi_, **kw)[0]
+                   for lo_, hi_ in zip(brk[:-1], brk[1:])) / a
     if geom == "slitW":
         return integrate.quad(lambda v: f(abs(q0 + v)), -a, a, points=[-q0] if a > q0 else None, **kw)[0] / (2 * a)
     raise ValueError(geom)
@@ -141,6 +162,8 @@ def check_1d(case, rec):
         rec.cls("pinhole-window-crosses-zero")
     if case.get("fold"):
         rec.cls("slit-width-folds-over-zero")
+    if case.get("long"):
+        rec.cls("slit-length-over-width:%s" % ("30-1000" if np.max(w1 / np.maximum(w2, 1e-300)) < 1000 else "1000-4000"))
     if geom in ("pinhole", "slitL", "slitW"):
         exact = np.array([exact1d(geom, f, a, b, cut=0.02 * q.min()) for a, b in zip(q, w1)])
         exact_semi = None
@@ -149,8 +172,9 @@ def check_1d(case, rec):
         exact_semi = np.array([np.mean([exact1d("slitL", f, abs(a + k * w / 30.0), L) for k in range(-30, 31)])
                                for a, L, w in zip(q, w1, w2)])
         # (ii) the true double integral
-        exact = np.array([integrate.dblquad(lambda u, v: f(math.sqrt((a + v) ** 2 + u * u)), -w, w, 0, L,
-                                            epsabs=1e-12, epsrel=1e-9)[0] / (2 * w * L) for a, L, w in zip(q, w1, w2)])
+        exact = np.array([integrate.quad(lambda v: exact1d("slitL", f, abs(a + v), L), -w, w, epsabs=1e-14, epsrel=1e-10,
+                                         points=[-a] if w > a else None, limit=200)[0] / (2 * w)
+                          for a, L, w in zip(q, w1, w2)])
     unsm = f(q)
     shift = np.max(np.abs(exact / unsm - 1.0))
     errs, first_edges = [], []
@@ -214,8 +238,17 @@ def check_1d(case, rec):
             bound = bound + 2.0 * lost
         # mid-point rule on a function varying on the scale 1/kf: second-order term
         bounds.append(bound + 0.2 * (h * kf) ** 2 + 10 * floor)
-        if np.any(e[level] > bounds[-1]):
-            j = int(np.argmax(e[level] / bounds[-1]))
+        over = e[level] > bounds[-1]
+        if case.get("long"):
+            # A slit much longer than the features of I(q): the average is small compared with the peak of the
+            # integrand, and the first-order term is (h/L) max|I| / |average| rather than h/L.  That ceiling is
+            # loose, so below it a point counts only if its error also fails to fall with the spacing
+            # (less than halved over two halvings) - which is what a wrong limit does and a coarse grid does not.
+            peak = np.array([abs(f(max(a - w, 0.0))) for a, w in zip(q, w2)]) / np.abs(ref)
+            ceiling = bounds[-1] + 0.5 * (h / w1) * np.maximum(peak, 1.0)
+            over = over & ((e[level] > ceiling) | (e[2] > 0.5 * e[0]))
+        if np.any(over):
+            j = int(np.argmax(np.where(over, e[level] / bounds[-1], 0.0)))
             tag = ""
             if fold_alt is not None and np.all(fold_alt[level] <= bounds[-1]):
                 tag = ":weight-below-low-q-cutoff-lost"
